@@ -96,6 +96,11 @@ CHECKS = {
          'A 145-shape statement alphabet - one item per shortcut in the AST builder, astutils, the model, the extensions and the renderers (definitions, decorators incl. overload/deprecated/property/old-style wrappers, class headers, every assignment and annotation form, Final/ClassVar/TypeAlias/TypeVar, __doc__/__all__/__docformat__ assignments incl. unevaluable values, imports, control-flow containers, string statements, every ast.expr class as value/default/annotation/decorator argument/base, regex constants incl. pathological ones, depth and size items, zope/attrs/deprecate extension inputs, PEP 695 syntax) - is instantiated in 6 placements and run under all 5 docformats; all ordered pairs of a 40-shape collision subset (thorough: of all shapes in module and class scope under 3 docformats, ~120 k cases) share one scope. 46 file-level items (undecodable, unparsable, odd names, odd tree shapes) sit next to a good module and 8 multi-file projects exercise cycles and re-exports of missing or unparsable modules. Each run must return with status 0/2/3 without exception or hang, write index, summary pages, both search indexes (valid JSON), objects.inv (inflatable) and one page per module; unparsable files are named on stdout and the sibling stays documented. Failing batches are bisected to single cases and pairs are attributed to the failing component.',
          'Trusted: the alphabet as a faithful cover of the code\'s branches (new branches need new items); in-process driver.main (a conformance subset runs as subprocess in C18).',
          'DESIGN.md section 5, C01'),
+ 'C18': ('model_checking',
+         'exhaustive enumeration of environment answers (hash seeds in a bounded range, directory-listing permutations through an interposed sitecustomize) x output-directory histories for each project/options, in separate processes; byte comparison of output trees; explicit state graph of the histories',
+         'For 6 project shapes (1/2/3 roots x project name given or guessed) x 3 option variants (default, source member order, readthedocs theme + sidebar depth 3 + source links), `python -m pydoctor` is run in separate processes with SOURCE_DATE_EPOCH fixed: reference (seed 0, sorted listing), hash seeds 1..7 (thorough 1..63), 6 (thorough 27) permutations of what pathlib.Path.iterdir / os.scandir / os.listdir return (a sitecustomize on PYTHONPATH - an environment seam, no source change), and histories of the output directory (second run into the same directory, runs with another seed and listing order into the directory left by the previous run, three in a row). The projects contain what is sensitive: chained assignments (tied sort keys under source order), names that differ only in case (members and module files Shapes.py/shapes.py), set and frozenset constants and defaults, diamond inheritance, several subclasses/implementers, a re-export. Every output tree (files, symlink targets, names) must hash to the single state of its project/options: 18 states, 288 (thorough ~1 700) transitions.',
+         'Trusted: the interposed listing functions cover every way pydoctor lists directories; seeds beyond the explored range are not covered; the order of roots on the command line is a different invocation.',
+         'DESIGN.md section 5, C18'),
 }
 
 
